@@ -329,44 +329,17 @@ func runC20(r *rt.Runner) {
 	for k := 0; k < nPath; k++ {
 		r.Case("long-path", func(c *rt.C) {
 			rng := c.Rand()
-			f := emptyFont()
 			nseg := 1 + rng.IntN(r.N(1500, 10000))
-			g := &type1.Glyph{WidthX: 600}
-			x, y := genFraction(rng), genFraction(rng)
-			g.MoveTo(x, y)
 			// a fixed step repeated (errors of one sign accumulate) or random steps
 			fixed := rng.IntN(2) == 0
 			sx, sy := smallStep(rng), smallStep(rng)
-			for s := 0; s < nseg; s++ {
+			g, x := buildLongPath(rng, nseg, func() (float64, float64) {
 				if !fixed {
 					sx, sy = smallStep(rng), smallStep(rng)
 				}
-				switch rng.IntN(8) {
-				case 0:
-					g.ClosePath()
-					x, y = x+sx, y+sy
-					g.MoveTo(x, y)
-				case 1, 2, 3:
-					x, y = x+sx, y+sy
-					g.LineTo(x, y)
-				case 4:
-					x += sx
-					g.LineTo(x, y)
-				case 5:
-					// hvcurveto shape
-					x1, x2, y2, y3 := x+sx, x+2*sx, y+sy, y+2*sy
-					g.CurveTo(x1, y, x2, y2, x2, y3)
-					x, y = x2, y3
-				case 6:
-					y1, x2, y2, x3 := y+sy, x+sx, y+2*sy, x+2*sx
-					g.CurveTo(x, y1, x2, y2, x3, y2)
-					x, y = x3, y2
-				default:
-					g.CurveTo(x+sx, y+sy/2, x+2*sx, y+sy, x+3*sx, y+3*sy)
-					x, y = x+3*sx, y+3*sy
-				}
-			}
-			g.ClosePath()
+				return sx, sy
+			})
+			f := emptyFont()
 			f.Glyphs["long"] = g
 			c.SetDetail(func() string { return fmt.Sprintf("path of %d segments, fixed step %v (%v,%v)", nseg, fixed, sx, sy) })
 			checkWrittenFont(c, f, stdEnc, type1.FormatNoEExec, "NoEExec")
@@ -375,6 +348,77 @@ func runC20(r *rt.Runner) {
 			c.Nontrivial([]byte(fmt.Sprintf("path|%d|%v|%v|%v|%v", nseg, fixed, sx, sy, x)), func() string { return fmt.Sprintf("%d segments, fixed=%v", nseg, fixed) })
 		})
 	}
+	// (f) long paths whose steps all err to the same side by less than any
+	// per-number tolerance: an integer plus (or minus) a few 1e-7. Whatever the
+	// writer does with such a delta, a bias below 1e-6 per number only shows
+	// after thousands of segments, so these paths are long in both tiers.
+	nNear := r.N(48, 400)
+	for k := 0; k < nNear; k++ {
+		r.Case("long-path/near-integer", func(c *rt.C) {
+			rng := c.Rand()
+			nseg := 5200 + rng.IntN(r.N(2000, 4800))
+			off := []float64{9.5e-7, 9.9e-7, 9.99e-7, 7e-7, 1.2e-6, 4e-7}[rng.IntN(6)]
+			if rng.IntN(2) == 0 {
+				off = -off
+			}
+			offY := off
+			if rng.IntN(3) == 0 {
+				offY = 0
+			}
+			g, x := buildLongPath(rng, nseg, func() (float64, float64) {
+				return float64(rng.IntN(7)-3) + off, float64(rng.IntN(7)-3) + offY
+			})
+			f := emptyFont()
+			f.Glyphs["long"] = g
+			c.SetDetail(func() string {
+				return fmt.Sprintf("path of %d segments, every step an integer%+g (x) / %+g (y)", nseg, off, offY)
+			})
+			checkWrittenFont(c, f, stdEnc, type1.FormatNoEExec, "NoEExec")
+			c.Runner().Max("longest path (segments)", int64(nseg))
+			c.Count("long near-integer paths")
+			c.Nontrivial([]byte(fmt.Sprintf("nearpath|%d|%v|%v|%v", nseg, off, offY, x)), func() string {
+				return fmt.Sprintf("%d segments, steps integer%+g", nseg, off)
+			})
+		})
+	}
+}
+
+// buildLongPath draws nseg segments of all kinds (moves, lines, h/v lines, the
+// three curve forms) whose deltas come from step; it returns the glyph and the
+// final x coordinate.
+func buildLongPath(rng *rand.Rand, nseg int, step func() (float64, float64)) (*type1.Glyph, float64) {
+	g := &type1.Glyph{WidthX: 600}
+	x, y := genFraction(rng), genFraction(rng)
+	g.MoveTo(x, y)
+	for s := 0; s < nseg; s++ {
+		sx, sy := step()
+		switch rng.IntN(8) {
+		case 0:
+			g.ClosePath()
+			x, y = x+sx, y+sy
+			g.MoveTo(x, y)
+		case 1, 2, 3:
+			x, y = x+sx, y+sy
+			g.LineTo(x, y)
+		case 4:
+			x += sx
+			g.LineTo(x, y)
+		case 5:
+			// hvcurveto shape
+			x1, x2, y2, y3 := x+sx, x+2*sx, y+sy, y+2*sy
+			g.CurveTo(x1, y, x2, y2, x2, y3)
+			x, y = x2, y3
+		case 6:
+			y1, x2, y2, x3 := y+sy, x+sx, y+2*sy, x+2*sx
+			g.CurveTo(x, y1, x2, y2, x3, y2)
+			x, y = x3, y2
+		default:
+			g.CurveTo(x+sx, y+sy/2, x+2*sx, y+sy, x+3*sx, y+3*sy)
+			x, y = x+3*sx, y+3*sy
+		}
+	}
+	g.ClosePath()
+	return g, x
 }
 
 func smallStep(rng *rand.Rand) float64 {
